@@ -85,7 +85,29 @@ func (ex *Exec) callWith(fr *Frame, st *State, cc *ssa.CallCommon, fnv Val, args
 		fn := fnv.Clo.Fn.(*ssa.Function)
 		return ex.dispatch(fr, st, funcKey(fn), fn, fnv.Clo.Bindings, args, sig, rt, pos, false)
 	}
-	// dynamic function value
+	// dynamic function value: name it after the parameter / variable / field it is read from, so that
+	// call counters and call-site assertions can refer to it
+	name := ""
+	switch v := cc.Value.(type) {
+	case *ssa.Parameter:
+		name = "$param." + v.Name()
+	case *ssa.UnOp:
+		switch a := v.X.(type) {
+		case *ssa.Alloc:
+			name = "$param." + a.Comment
+		case *ssa.FieldAddr:
+			if st, ok := types.Unalias(derefType(a.X.Type())).Underlying().(*types.Struct); ok {
+				name = "$field." + st.Field(a.Field).Name()
+			}
+		case *ssa.FreeVar:
+			name = "$param." + a.Name()
+		}
+	case *ssa.FreeVar:
+		name = "$param." + v.Name()
+	}
+	if name != "" {
+		return ex.dispatch(fr, st, name, nil, nil, args, sig, rt, pos, false)
+	}
 	ex.note("havoc", "dynamic call of a function value at "+ex.posString(pos))
 	ex.havocAll(st)
 	ex.havocEscapedLocals(st, args)
@@ -130,6 +152,14 @@ func (ex *Exec) dispatch(fr *Frame, st *State, key string, fn *ssa.Function, fre
 	case ex.theoryCall(fr, st, key, fn, args, sig, rt, pos, &res):
 	case ex.eng.contracts[key] != nil && !(fn != nil && len(ex.stack) > 0 && false):
 		res = ex.useContract(fr, st, ex.eng.contracts[key], key, fn, args, sig, rt, pos, ord)
+	case strings.HasPrefix(key, "$") && ex.isObserver(key):
+		ex.note("observer", key)
+		res = ex.freshResult(st, shortName(key), rt)
+	case strings.HasPrefix(key, "$"):
+		ex.note("havoc", "dynamic call of function value "+key+" at "+ex.posString(pos))
+		ex.havocAll(st)
+		ex.havocEscapedLocals(st, args)
+		res = ex.freshResult(st, shortName(key), rt)
 	case ex.eng.isIgnored(key):
 		ex.note("ignore", key)
 		res = ex.freshResult(st, shortName(key), rt)
@@ -891,6 +921,20 @@ func usesCalls(e *SExpr) bool {
 	}
 	for _, a := range e.Args {
 		if usesCalls(a) {
+			return true
+		}
+	}
+	return false
+}
+
+// isObserver: function-typed parameters / fields declared with `option observers a b` are called for their
+// result only (no effect on modelled state; the result is arbitrary).
+func (ex *Exec) isObserver(key string) bool {
+	if ex.con == nil {
+		return false
+	}
+	for _, pat := range strings.Fields(ex.con.Opts["observers"]) {
+		if strings.HasSuffix(key, "."+pat) {
 			return true
 		}
 	}
